@@ -422,6 +422,39 @@ wait:
 
 // genPrioBareScenario: the real-clock generator plus stops right after construction and, for
 // v1 without scripted rough stop, control calls.
+// genPrioBareRemoveScenario: v1 with control calls, handlers that hold their items for long and
+// at least one RemoveInput while the input still carries traffic; the run ends gracefully, so
+// the caller reads every handler's result right at the documented completion point.
+func genPrioBareRemoveScenario(rng *rand.Rand) PrioRealScenario {
+	for {
+		sc := genPrioRealScenario(rng, []string{"v1"}, true)
+		if len(sc.Inputs) < 2 {
+			continue
+		}
+		sc.HoldUs = 1500
+		kept := sc.Ctl[:0]
+		hasRm := false
+		for _, c := range sc.Ctl {
+			if c.Op == "stop" || c.Op == "cancel" {
+				continue
+			}
+			hasRm = hasRm || c.Op == "rm"
+			kept = append(kept, c)
+		}
+		sc.Ctl = kept
+		if !hasRm {
+			// remove the first input early, while its producer is still writing
+			sc.Ctl = append([]PRealCtl{{AfterUs: 100 + rng.IntN(400), Op: "rm", P: sc.Inputs[0].P}}, sc.Ctl...)
+		}
+		for i := range sc.Inputs {
+			if sc.Inputs[i].N < 8 {
+				sc.Inputs[i].N = 8 + rng.IntN(20)
+			}
+		}
+		return sc
+	}
+}
+
 func genPrioBareScenario(rng *rand.Rand, earlyStopOnly bool) PrioRealScenario {
 	vers := allVers
 	ctl := false
